@@ -339,15 +339,26 @@ def run(ctx, res):
         return any(c.get("k") == "call" and not c.get("fn") and "append" in ir.render(c.get("callee") or {}) for c in ir.calls_in(q))
 
     def empty_edge(blk, sc):
-        c0 = ir.strip(blk.cond_node()) if blk.cond_node() is not None else None
-        if not (isinstance(c0, dict) and c0.get("k") == "bin" and c0.get("op") in ("<", ">", "!=")):
+        """the edge on which the region is known empty (end <= beg), decided by the linear domain"""
+        from .. import linear as L
+        cn = blk.cond_node()
+        if cn is None or sc.get("label") not in ("true", "false"):
             return False
-        l, r = ir.strip(c0["l"]), ir.strip(c0["r"])
-        ids = {x.get("id") for x in (l, r) if isinstance(x, dict) and x.get("k") == "var"}
-        if ids != {pb["id"], pe["id"]}:
+        ids = {y.get("id") for y in ir.walk(cn) if isinstance(y, dict) and y.get("k") == "var"}
+        if not ({pb["id"], pe["id"]} <= ids):
             return False
-        nonempty_when_true = (c0["op"] == "!=") or (c0["op"] == "<" and l.get("id") == pb["id"]) or (c0["op"] == ">" and l.get("id") == pe["id"])
-        return nonempty_when_true and sc.get("label") == "false"
+        an = L.Analysis(prog)
+        an.inline = False
+        T, F = an.branch(f, cn, L.State())
+        states = T if sc["label"] == "true" else F
+        if not states:
+            return False
+        for st_ in states:
+            vb = an.eval(f, dict(pb, k="var"), st_)[0][0]
+            ve = an.eval(f, dict(pe, k="var"), st_)[0][0]
+            if not st_.entails_le(L.lsub(ve, vb)):
+                return False
+        return True
     ok, w = paths.all_paths_pass(f, "entry", oks, calls_slot, edge_ok=empty_edge) if oks else (False, None)
     inst = "storage_append hands every non-empty region to the driver's append"
     if ok:
